@@ -5,7 +5,7 @@ pub mod hist_thin;
 pub mod sched;
 
 use rt::run::Engine;
-use rt::tok::{Tok1, Tok16, Tok4, Tok64, Tok8, Tok8b, TokZ};
+use rt::tok::{Plain16, Plain8, Tok1, Tok16, Tok4, Tok64, Tok8, Tok8b, TokZ};
 
 #[cfg(feature = "arc-swap")]
 pub fn warm_arc_swap() {
@@ -27,6 +27,7 @@ pub fn sized_engine(shape: &str, prop: &str, max_ops: usize) -> Box<dyn Engine> 
         "tok16" => Box::new(SizedEngine::<Tok16>::new(prop, max_ops)),
         "tok64" => Box::new(SizedEngine::<Tok64>::new(prop, max_ops)),
         "tokz" => Box::new(SizedEngine::<TokZ<0>>::new(prop, max_ops)),
+        "plain8" => Box::new(SizedEngine::<Plain8>::new(prop, max_ops)),
         _ => Box::new(SizedEngine::<Tok8>::new(prop, max_ops)),
     }
 }
@@ -47,6 +48,9 @@ pub fn sched_engine(shape: &str, prop: &str, max_ops: usize) -> Box<dyn Engine> 
     use sched::SchedEngine;
     match shape {
         "tok16" => Box::new(SchedEngine::<Tok16>::new(prop, max_ops)),
+        "plain8" => Box::new(SchedEngine::<Plain8>::new(prop, max_ops)),
+        "plain16" => Box::new(SchedEngine::<Plain16>::new(prop, max_ops)),
+        "tokz" => Box::new(SchedEngine::<TokZ<0>>::new(prop, max_ops)),
         _ => Box::new(SchedEngine::<Tok8>::new(prop, max_ops)),
     }
 }
